@@ -63,6 +63,7 @@ const (
 	kSearchAll  = "SEARCH ALL"
 	kSearchDel  = "SEARCH DELETED"
 	kUIDSearch  = "UID SEARCH"
+	kSearchMM   = "SEARCH RETURN (MIN MAX COUNT) ALL" // sequence numbers in an ESEARCH response
 	kNoop       = "NOOP"
 	kIdle       = "IDLE"
 	kDone       = "DONE"
@@ -108,7 +109,7 @@ func (o op) wire(tag string) string {
 		return fmt.Sprintf("%s %s %s FLAGS\r\n", tag, o.K, o.Set)
 	case kFetchBody:
 		return fmt.Sprintf("%s FETCH %s (UID BODY[])\r\n", tag, o.Set)
-	case kSearchAll, kSearchDel:
+	case kSearchAll, kSearchDel, kSearchMM:
 		return fmt.Sprintf("%s %s\r\n", tag, o.K)
 	case kUIDSearch:
 		return fmt.Sprintf("%s UID SEARCH ALL\r\n", tag)
@@ -132,7 +133,7 @@ func (o op) String() string {
 func (o op) class() string {
 	k := strings.TrimRight(o.K, "+-")
 	switch o.K {
-	case kSearchAll, kSearchDel:
+	case kSearchAll, kSearchDel, kSearchMM:
 		k = "SEARCH"
 	}
 	return strings.ToLower(strings.ReplaceAll(k, " ", "-"))
@@ -141,7 +142,7 @@ func (o op) class() string {
 // noExpunge: commands during which RFC 9051 §7.5.1 (and the property) forbid EXPUNGE responses.
 func (o op) noExpunge() bool {
 	switch o.K {
-	case kFetch, kFetchBody, kStoreAdd, kStoreDel, kSearchAll, kSearchDel:
+	case kFetch, kFetchBody, kStoreAdd, kStoreDel, kSearchAll, kSearchDel, kSearchMM:
 		return true
 	}
 	return false
@@ -896,6 +897,23 @@ func judge(st *state, o op, resps []srvkit.Resp, closed bool, pr *probeResult, l
 					add(recPrune, "seq-out-of-range:search:"+cls, "%q contains %d but only %d messages were announced", r.Text, v, s.Count)
 				}
 			}
+		case kind == "ESEARCH":
+			if o.K != kSearchMM {
+				continue
+			}
+			w := r.Words()
+			for i := 0; i+1 < len(w); i++ {
+				if w[i] != "MIN" && w[i] != "MAX" {
+					continue
+				}
+				v, err := strconv.Atoi(w[i+1])
+				ss.searchNums++
+				if err != nil || v == 0 {
+					add(recPrune, "seq-zero-in-search:"+cls, "%q (announced count %d)", r.Text, s.Count)
+				} else if v > s.Count {
+					add(recPrune, "seq-out-of-range:search:"+cls, "%q: %s %d but only %d messages were announced", r.Text, w[i], v, s.Count)
+				}
+			}
 		case kind == "BYE":
 			add(recPrune, "connection-lost:"+cls, "%q", r.Text)
 		}
@@ -1184,7 +1202,7 @@ func enabled(st *state, cfg config) []op {
 			ops = append(ops, op{S: si, K: kFetchBody, Set: n})
 		}
 		ops = append(ops, op{S: si, K: kUIDFetch, Set: "1:*"})
-		ops = append(ops, op{S: si, K: kSearchAll}, op{S: si, K: kSearchDel}, op{S: si, K: kUIDSearch})
+		ops = append(ops, op{S: si, K: kSearchAll}, op{S: si, K: kSearchDel}, op{S: si, K: kUIDSearch}, op{S: si, K: kSearchMM})
 		ops = append(ops, op{S: si, K: kNoop}, op{S: si, K: kIdle})
 	}
 	return ops
@@ -1656,7 +1674,7 @@ func main() {
 	}
 	run.Set("observations_outside_the_property", obs)
 	run.Sample("history", "s0:[setup] APPEND A ; s0:[setup] APPEND A ; s0:[setup] SELECT A ; s1:[setup] SELECT A ; s1: STORE 1 +FLAGS (\\Deleted) ; s1: EXPUNGE ; s0: FETCH 2 FLAGS ; s0: NOOP")
-	run.Rule = "breadth-first search over histories of {APPEND m, SELECT m, CLOSE, STORE i|* +FLAGS (\\Deleted), STORE 1:* -FLAGS (\\Deleted), UID STORE u, EXPUNGE, UID EXPUNGE u, COPY i m', MOVE i m', MOVE 1:2 m', UID MOVE u m', FETCH i|1:* FLAGS, FETCH i (UID BODY[]) (not PEEK: sets \\Seen, a flag notification is owed to every session of the mailbox including the fetching one; not issued as the last command of a history), UID FETCH 1:* FLAGS, SEARCH ALL|DELETED, UID SEARCH ALL, NOOP, IDLE..DONE}, i in {1,last,last+1}, u in {first/last UID of the session's view, newest UID of the mailbox}, issued one at a time by the sessions on a real imapserver+imapmemserver, from several roots (empty mailboxes / 2, 3 (4) messages with every session selected); every transition = fresh server, fresh connections, replay, one more command, fresh probe connection; merged on the canonical reference-model state (mailboxes as (uid rank, \\Deleted) lists; per session: selected mailbox, idling, the messages its announced view denotes, the notifications owed to it in order; sessions sorted, mailbox names up to swap). non-trivial = distinct states in which some session is owed notifications"
+	run.Rule = "breadth-first search over histories of {APPEND m, SELECT m, CLOSE, STORE i|* +FLAGS (\\Deleted), STORE 1:* -FLAGS (\\Deleted), UID STORE u, EXPUNGE, UID EXPUNGE u, COPY i m', MOVE i m', MOVE 1:2 m', UID MOVE u m', FETCH i|1:* FLAGS, FETCH i (UID BODY[]) (not PEEK: sets \\Seen, a flag notification is owed to every session of the mailbox including the fetching one; not issued as the last command of a history), UID FETCH 1:* FLAGS, SEARCH ALL|DELETED, SEARCH RETURN (MIN MAX COUNT) ALL, UID SEARCH ALL, NOOP, IDLE..DONE}, i in {1,last,last+1}, u in {first/last UID of the session's view, newest UID of the mailbox}, issued one at a time by the sessions on a real imapserver+imapmemserver, from several roots (empty mailboxes / 2, 3 (4) messages with every session selected); every transition = fresh server, fresh connections, replay, one more command, fresh probe connection; merged on the canonical reference-model state (mailboxes as (uid rank, \\Deleted) lists; per session: selected mailbox, idling, the messages its announced view denotes, the notifications owed to it in order; sessions sorted, mailbox names up to swap). non-trivial = distinct states in which some session is owed notifications"
 	run.Exhaustive = allEmpty
 	run.Assume("commands are issued one at a time (the property is about histories, not overlap); IDLE is the only command during which other sessions act, and the idling session's output is read when it sends DONE")
 	run.Assume("EXISTS n announces the oldest not-yet-announced messages of the mailbox in arrival order, including messages removed before they were announced (their EXPUNGE must then follow)")
